@@ -70,7 +70,11 @@ class FuncInfo:
         return ast.get_source_segment(self.module.source, self.node) or ""
 
     def sha(self) -> str:
-        return hashlib.sha256(self.source_segment().encode()).hexdigest()[:16]
+        s = getattr(self, "_sha", None)
+        if s is None:
+            s = hashlib.sha256(self.source_segment().encode()).hexdigest()[:16]
+            self._sha = s
+        return s
 
     def __repr__(self) -> str:
         return f"<Func {self.qualname}>"
